@@ -120,7 +120,7 @@ pub fn gen_vehicle_cfg(rng: &mut Rng, net: &RefNet) -> FrontierCfg {
 
 /// well-formed vehicle parameters in random units
 pub fn random_vehicle_parameters(rng: &mut Rng) -> Value {
-    let mut d = |lo: f64, hi: f64, rng: &mut Rng| {
+    let d = |lo: f64, hi: f64, rng: &mut Rng| {
         let u = rng.below(5);
         json!([rng.frange(lo, hi) / U::dist_si(U::DISTANCE_UNITS[u]), DIST_NAMES[u]])
     };
